@@ -296,6 +296,9 @@ C08 == (Dom8 /\ scn.family # "C08k" /\ redef.ev = "redef") =>
                LET r == Ret(q) IN
                \* never fails for lack of an argument (an error value produced by a user body is not the library's complaint)
                /\ r.kind # "unsat" /\ ~(r.kind = "othererr" /\ r.lack)
+               \* nor for any other complaint of the library's own (e.g. about the options Redefine was given, which it keeps a copy of):
+               \* the only errors of such a call are those of user bodies
+               /\ scn.bad = "" => r.kind # "othererr"
                \* the original function's own results - also those it returns next to an error of its own
                /\ r.kind \in {"ok", "targeterr"} =>
                     \E i \in DOMAIN log : /\ log[i].phase = q /\ log[i].fn = 0
